@@ -414,18 +414,28 @@ func c02pipeline(r *core.Run) {
 			if !ok {
 				continue
 			}
+			wait := ps.startPoll('ζ')
+			pollDone := make(chan struct{})
+			go func() { wait(); close(pollDone) }()
+			fedAll := true
 			for _, c := range chunks {
-				for len(c) > 0 { // the reader takes at most 128 bytes at a time
+				for len(c) > 0 && fedAll { // the reader takes at most 128 bytes at a time
 					n := len(c)
 					if n > 128 {
 						n = 128
 					}
-					ps.tty.Feed(c[:n])
+					fedAll = ps.feedOrDone(c[:n], pollDone)
 					c = c[n:]
 				}
 			}
-			ps.tty.Feed([]byte("ζ"))
-			got, okp := ps.pollUntilRune('ζ')
+			if fedAll {
+				fedAll = ps.feedOrDone([]byte("ζ"), pollDone)
+			}
+			got, okp := wait()
+			if !fedAll && okp {
+				r.Violate("pipeline-vs-hook", fmt.Sprintf("%s: tokens %q: the sentinel fed last was delivered before all input had been read (events so far %s)", name, tokBytes(ts), evsStr(got)), nil)
+				break
+			}
 			if !okp {
 				r.Inconclusive(fmt.Sprintf("pipeline %s: sentinel not seen", name))
 				break
